@@ -7,9 +7,11 @@
       assigns the time);
    3. NLS: an expression language for transition / observation functions with [eval] and symbolic
       [deriv]; A, B, C, D = matrices of partial derivatives at the reference point; c1, c2 as coded;
-      the reference-point bookkeeping of set_refpoint AS CODED: with t=None the attribute `_ref_t`
-      is the `_t` buffer itself (an alias, [TAlias]), so it moves when the time moves, while
-      `_ref_f`, `_ref_g` keep the values computed when set_refpoint ran. *)
+      the reference-point bookkeeping of set_refpoint: with t=None the attribute `_ref_t` is a COPY
+      (`systime.clone()`) of the time at that moment.
+   History (repaired in /repo 6b6eb73, kept as `_old` definitions for the `_refuted` theorems):
+   LTV.set_refpoint(t=None) raised, and NLS.set_refpoint(t=None) stored the `_t` buffer itself
+   ([TAlias]), so the reference time moved with the system time while `_ref_f`, `_ref_g` did not. *)
 From Coq Require Import ZArith QArith List Bool Arith.
 Import ListNotations.
 From PV Require Import Base.Num.
@@ -24,11 +26,10 @@ Inductive kind := KLTI | KLTV | KNLS.
    SetTime t: systime = t     (_t.copy_(tensor(t)))
    SetRef t : set_refpoint(state, input, t)
                 System/LTI: returns self;   NLS: stores the reference point, time untouched;
-                LTV: `self.systime = t` - assigns the time; with the default t=None
-                     torch.tensor(None) raises (before anything is written) *)
+                LTV: `if t is not None: self.systime = t` - assigns the time when t is given *)
 Inductive op := Call | Direct | Reset (t : Z) | SetTime (t : Z) | SetRef (t : option Z).
 
-(* None = the operation raises (state unchanged) *)
+(* None = the operation raises (state unchanged); no modelled operation raises any more *)
 Definition step_time (k : kind) (t : Z) (o : op) : option Z :=
   match o with
   | Call => Some (t + 1)%Z
@@ -37,9 +38,15 @@ Definition step_time (k : kind) (t : Z) (o : op) : option Z :=
   | SetTime v => Some v
   | SetRef ot =>
       match k with
-      | KLTV => match ot with Some v => Some v | None => None end
+      | KLTV => match ot with Some v => Some v | None => Some t end
       | _ => Some t
       end
+  end.
+(* before 6b6eb73: LTV.set_refpoint did `self.systime = t` unconditionally; torch.tensor(None) raises *)
+Definition step_time_old (k : kind) (t : Z) (o : op) : option Z :=
+  match k, o with
+  | KLTV, SetRef None => None
+  | _, _ => step_time k t o
   end.
 Definition step_time' (k : kind) (t : Z) (o : op) : Z :=
   match step_time k t o with Some t' => t' | None => t end.
@@ -124,7 +131,7 @@ Definition ltv_step (s : ltv) (st : Z * list F) (o : lop) : option ((Z * list F)
   | LReset v => Some (v, x, [])
   | LSetTime v => Some (v, x, [])
   | LSetRef (Some v) => Some (v, x, [])
-  | LSetRef None => None
+  | LSetRef None => Some (t, x, [])
   end.
 Fixpoint ltv_trace (s : ltv) (st : Z * list F) (ops : list lop) : list (Z * bool * list F) :=
   match ops with
@@ -215,6 +222,7 @@ Definition nls_lin_l (fs gs : list fexpr) (x u : list F) (t : F) : list F :=
   lin_read fs gs x u t (evals fs x u t) (evals gs x u t).
 
 (* --- the object with its bookkeeping --- *)
+(* reference time: a stored value; [TAlias] (the live `_t` buffer) occurs only in the `_old` machine *)
 Inductive tref := TAlias | TFixed (v : F).
 Record nref := { r_x : list F; r_u : list F; r_t : tref; r_f : list F; r_g : list F }.
 (* n_last = (self.state, self.input) of the most recent forward *)
@@ -232,7 +240,9 @@ Definition nop_erase (o : nop) : op :=
 Definition tval (now : Z) (r : tref) : F := match r with TAlias => ofZ now | TFixed v => v end.
 Definition set_time (st : nst) (v : Z) : nst := {| n_t := v; n_last := n_last st; n_ref := n_ref st |}.
 
-Definition nls_step (fs gs : list fexpr) (st : nst) (o : nop) : option (nst * list F) :=
+(* [old = false]: the code as it is (t=None stores systime.clone(), i.e. the value);
+   [old = true]: before 6b6eb73 (t=None stored the buffer itself) *)
+Definition nls_step_gen (old : bool) (fs gs : list fexpr) (st : nst) (o : nop) : option (nst * list F) :=
   match o with
   | NCall x u =>
       let t := ofZ (n_t st) in
@@ -246,7 +256,10 @@ Definition nls_step (fs gs : list fexpr) (st : nst) (o : nop) : option (nst * li
       let ru := match ou with Some u => Some u | None => option_map snd (n_last st) end in
       match rx, ru with
       | Some x, Some u =>
-          let rt := match ot with None => TAlias | Some v => TFixed v end in
+          let rt := match ot with
+                    | None => if old then TAlias else TFixed (ofZ (n_t st))
+                    | Some v => TFixed v
+                    end in
           let t := tval (n_t st) rt in
           Some ({| n_t := n_t st; n_last := n_last st;
                    n_ref := Some {| r_x := x; r_u := u; r_t := rt;
@@ -259,18 +272,27 @@ Definition nls_step (fs gs : list fexpr) (st : nst) (o : nop) : option (nst * li
       | Some r => Some (st, lin_read fs gs (r_x r) (r_u r) (tval (n_t st) (r_t r)) (r_f r) (r_g r))
       end
   end.
-Definition nls_step' fs gs (st : nst) (o : nop) : nst :=
-  match nls_step fs gs st o with Some (st', _) => st' | None => st end.
-Fixpoint nls_run fs gs (st : nst) (ops : list nop) : nst :=
-  match ops with [] => st | o :: r => nls_run fs gs (nls_step' fs gs st o) r end.
-Fixpoint nls_trace fs gs (st : nst) (ops : list nop) : list (Z * bool * list F) :=
+Definition nls_step'_gen old fs gs (st : nst) (o : nop) : nst :=
+  match nls_step_gen old fs gs st o with Some (st', _) => st' | None => st end.
+Fixpoint nls_run_gen old fs gs (st : nst) (ops : list nop) : nst :=
+  match ops with [] => st | o :: r => nls_run_gen old fs gs (nls_step'_gen old fs gs st o) r end.
+Fixpoint nls_trace_gen old fs gs (st : nst) (ops : list nop) : list (Z * bool * list F) :=
   match ops with
   | [] => []
-  | o :: r => match nls_step fs gs st o with
-              | Some (st', out) => (n_t st', false, out) :: nls_trace fs gs st' r
-              | None => (n_t st, true, []) :: nls_trace fs gs st r
+  | o :: r => match nls_step_gen old fs gs st o with
+              | Some (st', out) => (n_t st', false, out) :: nls_trace_gen old fs gs st' r
+              | None => (n_t st, true, []) :: nls_trace_gen old fs gs st r
               end
   end.
+(* the code as it is *)
+Definition nls_step := nls_step_gen false.
+Definition nls_step' := nls_step'_gen false.
+Definition nls_run := nls_run_gen false.
+Definition nls_trace := nls_trace_gen false.
+(* history *)
+Definition nls_step_old := nls_step_gen true.
+Definition nls_step'_old := nls_step'_gen true.
+Definition nls_run_old := nls_run_gen true.
 End NLS.
 
 (* ------------------------------------------------------------------ exact-route evaluators (Q) *)
